@@ -87,6 +87,25 @@ Theorem locate_stable : forall allowed objs fs l k, locate_objs allowed objs fs 
 Proof. exact locate_stable_lemma. Qed.
 Print Assumptions locate_stable.
 
+(* the ordered answer is determined by: permutation of the selected set, non-increasing Initial Date,
+   store order among equal dates - so `sort_desc` inside locate_spec is not an arbitrary choice *)
+Theorem newest_first_unique : forall allowed objs fs l,
+  Permutation l (filter (selected allowed fs) objs) ->
+  StronglySorted desc l ->
+  (forall k, filter (fun o => o_idate o =? k) l = filter (fun o => o_idate o =? k) (filter (selected allowed fs) objs)) ->
+  l = spec_objs allowed objs fs.
+Proof. exact newest_first_unique_lemma. Qed.
+Print Assumptions newest_first_unique.
+
+(* ... and the specification's list does meet the three conditions (the hypotheses above are satisfiable) *)
+Theorem newest_first_exists : forall allowed objs fs,
+  let l := spec_objs allowed objs fs in
+  Permutation l (filter (selected allowed fs) objs) /\
+  StronglySorted desc l /\
+  (forall k, filter (fun o => o_idate o =? k) l = filter (fun o => o_idate o =? k) (filter (selected allowed fs) objs)).
+Proof. exact newest_first_exists_lemma. Qed.
+Print Assumptions newest_first_exists.
+
 (* ------------------------------------------------------------------------------------------------
    3. Exactly the permitted matching set (before slicing). *)
 Theorem locate_perm : forall allowed objs fs, side_conditions allowed objs fs ->
